@@ -62,8 +62,7 @@ def run(tier, build, replay=None):
         c, f, t = replay["case"], replay.get("from"), replay.get("to")
         b = hist.impl_compute(c)
         i = hist.impl_compute(c, from_day=f, to_day=t)
-        fr = [(x["ev"], x["lot"], x["amt"]) for x in b["ok"]["fractions"]] if "ok" in b else []
-        raw = core.run_model([hist.line(30, l4.encode_input(c, fr, f, t, True))])
+        raw = core.run_model([l4.model_line(c, b, f, t, True, i)])
         data = {"jobs": [[0, f, t]], "impl": [i], "model": [l4.decode_computed(raw[0], c)], "base": {"cases": [c], "impl": [b]}}
     else:
         gen = l4.run(tier)
@@ -132,6 +131,7 @@ def run(tier, build, replay=None):
         "samples": [{"case": base["cases"][data["jobs"][0][0]], "from": data["jobs"][0][1], "to": data["jobs"][0][2]}] if data["jobs"] else [],
         "traces_validated_against_impl": len(data["jobs"]),
         "correspondence_mismatches": mism,
+        "end_to_end_stream": hist.ods_stats(base["cases"]),
     })
     out.assumptions = ["reconciliation assumes a supplied crypto_out_with_fee equal to amount + fee; nothing is assumed about small transfer fees "
                        "(finding F8 is repaired; its replay corpus/C07/f8-dust-transfer-fee.json runs first, whole history)",
